@@ -12,3 +12,6 @@ import RodbusModel.Props.C19
 #print axioms Rodbus.C19.read_sees_whole_transactions
 #print axioms Rodbus.C19.database_tables
 #print axioms Rodbus.C19.absent_is_exception_2
+#print axioms Rodbus.C19.transactions_compose
+#print axioms Rodbus.C19.transaction_boundaries_invisible
+#print axioms Rodbus.C19.successive_transactions_refine_map
